@@ -121,6 +121,24 @@ var c20Layouts = []c20Layout{
 		return 0
 	}, 0},
 	{"blank-end", func(i int) string { return c20Line(i, 9) }, func(int) int { return 0 }, 2},
+	// arbitrary bytes inside non-blank lines (byte-for-byte delivery): carriage returns at the end (files written
+	// with CRLF line ends) and inside, tabs, trailing spaces, NUL and high bytes
+	{"bytes", func(i int) string {
+		base := c20Line(i, 4+i%9)
+		switch i % 6 {
+		case 0:
+			return base + "\r"
+		case 1:
+			return "\t" + base + " "
+		case 2:
+			return base + "\x00\xff" + base
+		case 3:
+			return base + "\r\r"
+		case 4:
+			return "\r" + base
+		}
+		return base
+	}, func(i int) int { return i % 2 }, 1},
 	{"blank-first", func(i int) string { return c20Line(i, 6) }, func(i int) int {
 		if i == 0 {
 			return 1
@@ -514,7 +532,7 @@ func runC20(r *ev.Run) {
 	r.Set("file_epochs", files)
 	r.Set("file_subranges", ranges)
 	r.Set("refill_subruns_cases", refill)
-	r.Set("rule", "feistel is a bijection of [0,2^b) for every b up to the bound x 24 seeds; shuffleIndex is a permutation of [0,n) for EVERY n up to the bound x 24 seeds plus sizes around powers of two; Batches(n) partitions [0,n) for every n; Chunks partitions every range length at several offsets; files for every line count up to the bound in 6 layouts (short, variable, near-4KiB lines, blank lines in the middle / at the end / first) read as whole epochs through Batches x Chunks x Open x Read and compared as multisets with the non-blank lines, every sub-range [s,e) for small n; two windows of one chunker open at once with interleaved reads; one 40 MiB file with the real 32 MiB buffer; the same family with the read buffer overlaid to 64/257/4096 bytes (every alignment of a line against a refill)")
+	r.Set("rule", "feistel is a bijection of [0,2^b) for every b up to the bound x 24 seeds; shuffleIndex is a permutation of [0,n) for EVERY n up to the bound x 24 seeds plus sizes around powers of two; Batches(n) partitions [0,n) for every n; Chunks partitions every range length at several offsets; files for every line count up to the bound in 7 layouts (short, variable, near-4KiB lines, blank lines in the middle / at the end / first, lines with carriage returns, tabs, NUL and high bytes) read as whole epochs through Batches x Chunks x Open x Read and compared as multisets with the non-blank lines, every sub-range [s,e) for small n; two windows of one chunker open at once with interleaved reads; one 40 MiB file with the real 32 MiB buffer; the same family with the read buffer overlaid to 64/257/4096 bytes (every alignment of a line against a refill)")
 	r.Assume("epochs beyond the enumerated seeds rest on the epoch only seeding the round keys")
 }
 
